@@ -1188,6 +1188,218 @@ def spell_back(s):
 
 
 # ---------------------------------------------------------------------------
+# gapped single sequences (whole-codon gaps, partial codons, trailing gaps after a terminal stop)
+
+
+def trimmed_string(table, s, dash_always=False):
+    """s with its terminal stop codon trimmed the documented way: removed for gap-free s, replaced by gaps otherwise"""
+    if not expect(table, s, (False, True, True), "dash")["term"]:
+        return s
+    d_end = max(i for i, c in enumerate(s) if c != "-") + 1
+    if dash_always or "-" in s:
+        return s[: d_end - 3] + "-" * (len(s) - d_end + 3)
+    return s[:-3]
+
+
+def check_gapped_seq(res, cid, s, mt, impl):
+    """a Sequence built from a DNA-spelled string that may hold gaps (frame 0 only)"""
+    table = PINNED[cid]
+    replay = {"kind": "one-gapped-seq", "code": cid, "s": s, "moltype": mt, "impl": impl}
+    J = Judge(res, replay, code=cid, seq=spell(s, mt), moltype=mt, impl=impl)
+    st, seq = attempt(lambda: mk_seq(spell(s, mt), mt, impl))
+    if st == "exc":
+        res.evals += 1
+        J.witness(exc_mechanism(f"C12/make_seq/{impl}", seq), error=repr(seq))
+        return
+    partial_char = "-" if impl == "new" else "?"
+    special = seq_special(impl, mt, s)
+    l3 = len(s.replace("-", "")) % 3
+    cls = "gapped" if "-" in s else "plain"
+    nt = cid != 1 or l3 != 0 or cls == "gapped"
+    term = expect(table, s, (False, True, True), "seq", partial_char)["term"]
+    plain = dict(reject=False, reject_ok=False, refusal_ok=False, kept="", trimmed="", term=False)
+    st, got = attempt(lambda: seq.has_terminal_stop(gc=cid))
+    J.decide(f"seq-gapped.has_terminal_stop/{impl}", f"C12/seq.has_terminal_stop/{impl}", (st, got), dict(accept={term}, **plain), (cid, cls, mt, l3) if nt else None, special=special)
+    st, got = attempt(lambda: str(seq.trim_stop_codon(gc=cid)))
+    e_trim = dict(accept={spell(trimmed_string(table, s), mt)}, reject=False, reject_ok=False, refusal_ok=False, kept=spell(s, mt), trimmed=spell(trimmed_string(table, s), mt), term=term)
+    J.decide(f"seq-gapped.trim_stop_codon/{impl}", f"C12/seq.trim_stop_codon/{impl}", (st, got), e_trim, (cid, cls, mt, l3) if nt else None, special=special)
+    for pol in POLICIES:
+        e = expect(table, s, pol, "seq", partial_char)
+        guarded = pol[0] and pol[1]
+        st, got = attempt(lambda: str(seq.get_translation(gc=cid, include_stop=pol[0], trim_stop=pol[1], incomplete_ok=pol[2])))
+        entry = f"seq-gapped.get_translation/{impl}" + ("/guarded-flag-pair" if guarded else "")
+        ok = J.decide(entry, f"C12/seq.get_translation/{impl}", (st, got), e, (cid, cls, mt, l3, pol_name(pol)) if nt and not guarded else None, special=special, policy=pol_name(pol))
+        if ok and st == "ok" and cls == "gapped":
+            res.count("outcome:gapped-codon-translated")
+    res.count(f"strings:gapped-seq/{impl}/{mt}")
+
+
+# ---------------------------------------------------------------------------
+# cross-call state: the genetic-code objects are process-wide singletons; nothing a call does may change them
+
+_SNAPSHOT = {}
+_PROBE_DNA = "".join(CODONS)
+
+
+def observe_code(impl, cid):
+    """everything observable about a shared code object that later calls depend on"""
+    gc = gc_obj(impl, cid)
+    table = PINNED[cid]
+    obs = {
+        "stop-codon-list": list(gc["*"]) if impl == "old" else sorted(gc["*"]),
+        "codon-table": "".join(gc[c] for c in CODONS),
+        "sense-codons": sorted(gc.sense_codons),
+        "synonyms": {aa: sorted(gc[aa]) for aa in sorted(set(table))},
+    }
+    if impl == "old":
+        obs["code_sequence"] = gc.code_sequence
+        obs["to_regex"] = gc.to_regex("M*W")
+        obs["get_stop_indices"] = [gc.get_stop_indices(_PROBE_DNA, start=f) for f in range(3)]
+        obs["anticodons"] = {aa: list(v) for aa, v in sorted(gc.anticodons.items())}
+        obs["start-codons"] = sorted(gc.start_codons)
+    else:
+        obs["stop_codons"] = sorted(gc.stop_codons)
+        obs["start-codons"] = sorted(gc.start_codons)
+        obs["anticodons"] = list(gc.anticodons)
+        obs["translate-all-codons"] = gc.translate(_PROBE_DNA)
+    return obs
+
+
+def take_snapshot():
+    if _SNAPSHOT:
+        return
+    for impl in ("old", "new"):
+        for cid in CODE_IDS:
+            try:
+                _SNAPSHOT[impl, cid] = observe_code(impl, cid)
+            except Exception:  # noqa: BLE001  (a code that cannot be observed is reported by check_table)
+                _SNAPSHOT[impl, cid] = None
+
+
+def worker_init():
+    take_snapshot()
+
+
+def check_shared(res, replay, codes=None, **detail):
+    """invariant: the shared code objects look exactly as they did when the worker started (and as the NCBI table says)"""
+    take_snapshot()
+    clean = True
+    for impl in ("old", "new"):
+        for cid in codes or CODE_IDS:
+            snap = _SNAPSHOT.get((impl, cid))
+            if snap is None:
+                continue
+            res.evals += 1
+            res.count("op:shared-code-invariant")
+            st, obs = attempt(lambda: observe_code(impl, cid))
+            if st == "exc":
+                clean = False
+                res.witness(exc_mechanism("C12/shared-genetic-code-object-mutated/unobservable", obs), impl=impl, code=cid, error=repr(obs)[:200], replay_case=replay, **detail)
+                continue
+            for key, val in obs.items():
+                if val != snap[key]:
+                    clean = False
+                    res.witness(f"C12/shared-genetic-code-object-mutated/{key}", impl=impl, code=cid, now=val, at_worker_start=snap[key], replay_case=replay, **detail)
+            table = PINNED[cid]
+            if obs["codon-table"] != table or set(obs["stop-codon-list"]) != set(stops_of(table)):
+                clean = False
+                res.witness("C12/shared-genetic-code-object-mutated/differs-from-NCBI-table", impl=impl, code=cid, codon_table=obs["codon-table"], stops=obs["stop-codon-list"], replay_case=replay, **detail)
+    return clean
+
+
+# ---------------------------------------------------------------------------
+# order-dependent histories: many entry points, one code, one process
+
+
+def run_step(res, cid, step):
+    op = step["op"]
+    if op == "gapped-seq":
+        check_gapped_seq(res, cid, step["s"], step["mt"], step["impl"])
+    elif op == "seq":
+        check_seq(res, cid, step["s"], step["mt"], step["impl"])
+    elif op == "container":
+        check_container(res, cid, step["data"], step["container"], step["mt"])
+    elif op == "gc":
+        check_gc(res, cid, step["s"])
+    elif op == "app":
+        check_apps(res, cid, step["data"], step["container"], step["mt"])
+    else:
+        raise ValueError(f"unknown step {op!r}")
+
+
+def step_label(step):
+    bits = [step["op"], step.get("container") or step.get("impl", ""), step.get("mt", "")]
+    txt = step.get("s") if "s" in step else "".join(step.get("data", {}).values())
+    if txt is not None:
+        bits.append("gapped" if "-" in txt else "plain")
+    return "/".join(b for b in bits if b)
+
+
+def run_history(res, cid, steps, order="given"):
+    """steps on the SAME code objects, every call decided as usual, the shared objects re-inspected after every step"""
+    replay = {"kind": "one-history", "code": cid, "steps": steps}
+    done = []
+    for i, step in enumerate(steps):
+        run_step(res, cid, step)
+        done.append(step_label(step))
+        res.count("op:history-step")
+        prev = done[-2].split("/")[0:3] if len(done) > 1 else ["start"]
+        res.sig("history", cid != 1, "/".join(prev), done[-1])
+        if not check_shared(res, replay, codes=[cid], step_index=i, step=step, history_so_far=list(done)):
+            break  # first diverging step is the witness; later steps only repeat it
+    res.count(f"history:{order}")
+
+
+def gen_history(rng):
+    """(cid, steps, order): gapped / plain x RNA / DNA x old / new x sequence / container entry points on one code"""
+    cid = rng.choice([c for c in CODE_IDS if stops_of(PINNED[c])])
+    table = PINNED[cid]
+    g = None
+    for _ in range(20):
+        rows = gen_rows(rng, table, True, True)
+        if max(len(v) for v in rows.values()) > 60:
+            continue
+        cands = [v for v in rows.values() if "-" in v and expect(table, v, (False, True, True), "dash")["term"]]
+        if cands:
+            g = rng.choice(cands)
+            break
+    if g is None:
+        sense = [c for c in CODONS if aa_of(table, c) != "*"]
+        g = rng.choice(sense) + "---" + rng.choice(stops_of(table)) + "---"
+        rows = {"s0": g, "s1": rng.choice(sense) * 4}
+    plain_rows = gen_rows(rng, table, False, False)
+    plain_rows = {k: v[:60] for k, v in plain_rows.items()}
+    u = gen_string(rng, table)[:45]
+    rna_first = {"op": "gapped-seq", "s": g, "mt": "rna", "impl": "old"}
+    dna_same = {"op": "gapped-seq", "s": g, "mt": "dna", "impl": "old"}
+    pool = [
+        {"op": "gapped-seq", "s": g, "mt": "rna", "impl": "new"},
+        {"op": "gapped-seq", "s": g, "mt": "dna", "impl": "new"},
+        {"op": "container", "data": rows, "container": rng.choice(["aln-old", "arr-old"]), "mt": "dna"},
+        {"op": "container", "data": rows, "container": rng.choice(["aln-old", "arr-old"]), "mt": "rna"},
+        {"op": "container", "data": rows, "container": "coll-old", "mt": "rna"},
+        {"op": "container", "data": rows, "container": "coll-old", "mt": "dna"},
+        {"op": "container", "data": rows, "container": "coll-new", "mt": rng.choice(["dna", "rna"])},
+        {"op": "container", "data": plain_rows, "container": rng.choice(["coll-old", "coll-new"]), "mt": rng.choice(["dna", "rna"])},
+        {"op": "seq", "s": u, "mt": rng.choice(["dna", "rna"]), "impl": rng.choice(["old", "new"])},
+        {"op": "gc", "s": u},
+        {"op": "app", "data": plain_rows, "container": "coll-old", "mt": rng.choice(["dna", "rna"])},
+    ]
+    rng.shuffle(pool)
+    extra = pool[: rng.randint(3, 6)]
+    order = rng.choice(["rna-first", "dna-first", "shuffled"])
+    if order == "rna-first":
+        steps = [rna_first, dna_same] + extra + [dna_same]
+    elif order == "dna-first":
+        steps = [dna_same, rna_first] + extra + [dna_same, rna_first]
+    else:
+        steps = extra + [rna_first, dna_same]
+        rng.shuffle(steps)
+        steps.append(dna_same)
+    return cid, steps, order
+
+
+# ---------------------------------------------------------------------------
 # generators (expanded inside the worker from a seed)
 
 
@@ -1290,6 +1502,8 @@ def gen_cases(rng, tier):
         cases.append({"kind": "container", "seed": rng.randrange(2**32), "n": 12})
     for _ in range(n_app):
         cases.append({"kind": "app", "seed": rng.randrange(2**32), "n": 4})
+    for _ in range(12 if quick else 400):
+        cases.append({"kind": "history", "seed": rng.randrange(2**32), "n": 4})
     return cases
 
 
@@ -1298,7 +1512,15 @@ CONTAINER_KINDS = ["coll-old", "coll-new", "aln-old", "arr-old"]
 
 
 def run_case(case):
+    take_snapshot()
     res = Result()
+    _run_case(res, case)
+    # invariant after every case: no call left a mark on the shared genetic-code objects
+    check_shared(res, case, after_case=case.get("kind"))
+    return res
+
+
+def _run_case(res, case):
     kind = case["kind"]
     if kind == "codes":
         check_codes_available(res)
@@ -1329,7 +1551,7 @@ def run_case(case):
             aligned = ck in ("aln-old", "arr-old")
             gapped = rng.random() < (0.5 if aligned else 0.35)
             data = gen_rows(rng, PINNED[cid], aligned, gapped)
-            mt = "rna" if (not gapped and rng.random() < 0.25) else "dna"
+            mt = "rna" if rng.random() < 0.25 else "dna"
             check_container(res, cid, data, ck, mt)
         res.sample({"kind": "container", "container": ck, "code": cid, "data": data})
     elif kind == "app":
@@ -1349,6 +1571,16 @@ def run_case(case):
             mt = "rna" if rng.random() < 0.15 else "dna"
             check_apps(res, cid, data, ck, mt)
         res.sample({"kind": "app", "container": ck, "code": cid, "data": data})
+    elif kind == "history":
+        rng = random.Random(case["seed"])
+        for _ in range(case["n"]):
+            cid, steps, order = gen_history(rng)
+            run_history(res, cid, steps, order)
+        res.sample({"kind": "history", "code": cid, "steps": [step_label(x) for x in steps]})
+    elif kind == "one-history":
+        run_history(res, case["code"], case["steps"])
+    elif kind == "one-gapped-seq":
+        check_gapped_seq(res, case["code"], case["s"], case["moltype"], case["impl"])
     elif kind == "one-gc":
         check_gc(res, case["code"], case["s"])
     elif kind == "one-seq":
@@ -1359,7 +1591,6 @@ def run_case(case):
         check_apps(res, case["code"], case["data"], case["container"], case["moltype"])
     else:
         raise ValueError(f"unknown case kind {kind!r}")
-    return res
 
 
 def required(counters, tier):
@@ -1380,6 +1611,9 @@ def required(counters, tier):
         "outcome:rejected", "outcome:terminal-stop-trimmed", "outcome:stop-kept", "outcome:gapped-codon-translated",
         "outcome:refused-strict-length", "outcome:selected",
         "lenmod3:0", "lenmod3:1", "lenmod3:2",
+        "op:shared-code-invariant", "op:history-step", "history:rna-first", "history:dna-first", "history:shuffled",
+        "op:seq-gapped.get_translation/old", "op:seq-gapped.get_translation/new", "op:seq-gapped.trim_stop_codon/old",
+        "strings:gapped-seq/old/rna", "strings:gapped-seq/old/dna", "strings:gapped-seq/new/rna",
     ] + [f"frame:{s}{f}" for s, f in FRAMES] + ["policy:" + pol_name(p) for p in POLICIES]  # fmt: skip
     for k in need:
         if not counters.get(k, 0):
